@@ -99,7 +99,7 @@ def finish(res, meta, src, k, wt):
     for f in ("demo%s_test.go" % k, "demo%s.go" % k):
         if os.path.exists(os.path.join(src, f)):
             shutil.copy(os.path.join(src, f), os.path.join(out, f.replace("_test.go", "_test.go.txt").replace(".go", ".go.txt") if not f.endswith("_test.go") else f + ".txt"))
-    m = dict(property=res["property"], breaks=meta.get("summary"), needs_to_manifest=meta.get("needs_to_manifest"),
+    m = dict(property=res["property"], breaks=meta.get("summary") or meta.get("breaks"), demo_cmd=meta.get("demo_cmd"), needs_to_manifest=meta.get("needs_to_manifest"),
              files_changed=meta.get("files_changed"), demo_path=meta.get("demo_path"), author="independent sub-agent (given only the property text)",
              confirmed_by_lead=res)
     json.dump(m, open(os.path.join(out, "meta.json"), "w"), indent=1)
